@@ -19,7 +19,10 @@ RULE = ("six kinds of PAIRED PUBLIC CALLABLES on identical inputs, all parameter
         "return_derived_parameters=True) (increasing/none, clamps, cyclic, 0-3 interior keypoints, units 1-2, "
         "missing value given or not, inputs inside / at the ends / outside / equal to the missing value) vs "
         "PWLCalibration layers holding the derived keypoints and kernel [y0, differences], one single-unit layer "
-        "per unit and one multi-unit layer when the keypoints are shared; (b2) cdf_fn vs CDF layer (relu6 and "
+        "per unit and one multi-unit layer when the keypoints are shared, AND vs float64 PWLCalibration layers holding "
+        "the keypoints / kernel / missing output computed independently in NumPy from the RAW parameters (softmax / "
+        "sigmoid / running sums; also compared with the returned derived parameters), incl. the DERIVED missing "
+        "output (last output parameter); (b2) cdf_fn vs CDF layer (relu6 and "
         "sigmoid, mean and none, sparsity 1-2, fixed / shared / per-input scaling incl. zero and negative, "
         "broadcast scaling shapes); (c) ParallelCombination of 1-4 PWL calibrators (tensor / list input, "
         "single / list output) vs the calibrators applied column by column; (d) Aggregation around a Lattice "
@@ -35,14 +38,17 @@ TRUSTED = ["models: Model/Representations.v (dense_of_kfl, ParallelCombination /
            "Model/PWLEval.v, Model/CondPWL.v, Model/CDF.v, Model/RTLStructure.v (other properties' models, used "
            "as they are)",
            "softmax / sigmoid are oracles: the pwl theorems hold for any oracle with non-zero keypoint deltas, "
-           "the cdf theorem for any sigmoid that respects ==; the tie starts from the derived parameters that "
-           "pwl_calibration_fn returns",
+           "the cdf theorem for any sigmoid that respects ==; the Coq tie starts from the derived parameters that "
+           "pwl_calibration_fn returns; the derivation itself is tied on the implementation side by the independent "
+           "NumPy computation of the corresponding keypoints and weights (and modelled / compared in C15)",
            "Aggregation: the list of per-feature ragged tensors with shared row splits is modelled as ragged "
            "rows of feature vectors (index-level meaning of map_flat_values); the wrapped model is assumed to "
            "treat batch rows independently (hypothesis `rowwise` of C14_aggregation_mean)",
            "tie: paired layers built in float64 where the API allows, parameters assigned, both called on the "
            "same tensors; outputs of both compared with both models in Coq"]
-LIMITS = ["geometric-mean CDF reduction is excluded by the statement (different epsilons)",
+LIMITS = ["geometric-mean CDF reduction: the two callables are NOT compared with each other (different epsilons by "
+          "design); each is compared in log space with exp(mean(log(cdfs + eps))) for its documented eps (1e-8 / 1e-3) "
+          "on per-input cdfs computed in NumPy (C14_cdf_geometric_only_eps); not evaluated in Coq (exp / log)",
           "KFL vs Lattice is claimed for clipped or in-range inputs only (outside, unclipped, size-2 KFL "
           "extrapolates linearly while hat weights do not); such points are still compared model vs "
           "implementation on each side",
@@ -121,15 +127,18 @@ def gen_pwl(rng):
   in_max = in_min + rng.choice([1.0, 2.0, 4.0, 0.5])
   out_min = _dy(rng, -2, 1)
   out_max = out_min + rng.choice([1.0, 2.0, 0.5, 3.0])
-  missing = rng.choice([None, None, "given"])
+  missing = rng.choice([None, None, "given", "derived", "derived"])
   missing_in = missing_out = None
   if missing:
     missing_in = rng.choice([-3.0, in_min, 100.0, in_min + 0.25])
-    missing_out = _dy(rng, -3, 3)
+    if missing == "given":
+      missing_out = _dy(rng, -3, 3)
   osize = nkp - int(cmax) - int(cmin) - int(cyc)  # given missing output: +1 -1
   if osize <= 0:
     cmin = False
     osize = nkp - int(cmax) - int(cmin) - int(cyc)
+  if missing == "derived":
+    osize += 1  # the LAST output parameter is the logit of the missing output
   shared_in = rng.random() < 0.5
   kip = None
   if n_in is not None:
@@ -142,7 +151,7 @@ def gen_pwl(rng):
     kop = [[[_dy(rng, -2, 2) for _ in range(osize)] for _ in range(units)]]
   else:
     kop = [[_dy(rng, -2, 2) for _ in range(osize)]]
-  f64 = n_in is not None and missing is None and rng.random() < 0.7
+  f64 = n_in is not None and missing != "given" and rng.random() < 0.7
   xs = [in_min, in_max, in_min - 1.0, in_max + 0.5, in_min + 0.25 * (in_max - in_min),
         in_min + rng.random() * (in_max - in_min), in_min + rng.random() * (in_max - in_min)]
   if missing:
@@ -161,7 +170,7 @@ def gen_cdf(rng):
   units = rng.choice([1, 2, 3]) if sf == 1 else rng.choice([2, 4])
   nk = rng.choice([1, 2, 3])
   act = rng.choice(["relu6", "relu6", "sigmoid"])
-  red = rng.choice(["mean", "none"])
+  red = rng.choice(["mean", "none", "mean", "none", "geometric_mean"])
   stype = rng.choice(["fixed", "learned_shared", "learned_per_input"])
   f64 = stype != "fixed" and rng.random() < 0.7
   uf = units // sf
@@ -357,6 +366,62 @@ def eval_kfl(tf, tfl, d):
 # ----------------------------------------------------------------------------
 # (b1) pwl_calibration_fn vs PWLCalibration
 # ----------------------------------------------------------------------------
+def _np_softmax(v):
+  v = np.asarray(v, dtype=np.float64)
+  e = np.exp(v - np.max(v))
+  return e / np.sum(e)
+
+
+def _np_sigmoid(v):
+  return 1.0 / (1.0 + np.exp(-np.asarray(v, dtype=np.float64)))
+
+
+def _pwl_corresponding(d, u):
+  """Keypoints, kernel column [y0, dy1, ...] and missing output of unit u, from the RAW parameters (float64 NumPy).
+
+  Written from the documented meaning of the parameters, in terms of keypoint VALUES (not the function's own
+  [first, deltas] bookkeeping): keypoint gaps = softmax of the zero-padded input parameters times the input range;
+  'none': outputs = output_min + sigmoid(parameter) * range (cyclic: the first output again at the end);
+  'increasing': outputs = output_min + running sums of softmax(zero-padded parameters) * range, preceded by output_min
+  itself when clamp_min, the final one (= output_max) kept only when clamp_max; a derived missing output is
+  output_min + sigmoid(LAST parameter) * range and that parameter is not an output parameter.
+  """
+  imin, imax, omin, omax = d["in_min"], d["in_max"], d["out_min"], d["out_max"]
+  if d["kip"] is None:
+    gaps = np.array([imax - imin], dtype=np.float64)
+  else:
+    a = np.array(d["kip"], dtype=np.float64)
+    if a.ndim == 2:
+      a = a[:, None, :]
+    row = a[0, u if a.shape[1] > 1 else 0]
+    gaps = _np_softmax(np.concatenate([[0.0], row])) * (imax - imin)
+  ks = imin + np.concatenate([[0.0], np.cumsum(gaps)])
+  b = np.array(d["kop"], dtype=np.float64)
+  if b.ndim == 2:
+    b = b[:, None, :]
+  p = b[0, u if b.shape[1] > 1 else 0]
+  mo = None
+  if d["missing_in"] is not None:
+    if d["missing_out"] is None:
+      mo = float(omin + _np_sigmoid(p[-1]) * (omax - omin))
+      p = p[:-1]
+    else:
+      mo = float(d["missing_out"])
+  if d["mono"] == "none":
+    ys = omin + _np_sigmoid(p) * (omax - omin)
+    if d["cyc"]:
+      ys = np.concatenate([ys, ys[:1]])
+  else:
+    ys = omin + np.cumsum(_np_softmax(np.concatenate([[0.0], p])) * (omax - omin))
+    if d["cmin"]:
+      ys = np.concatenate([[omin], ys])
+    if not d["cmax"]:
+      ys = ys[:-1]
+  assert len(ys) == len(ks), (len(ys), len(ks))
+  kern = np.concatenate([ys[:1], np.diff(ys)])
+  return ks, kern, mo
+
+
 def eval_pwl(tf, tfl, d):
   from tensorflow_lattice.python import conditional_pwl_calibration as cp  # pylint: disable=g-import-not-at-top
   dt = tf.float64 if d["f64"] else tf.float32
@@ -377,13 +442,40 @@ def eval_pwl(tf, tfl, d):
   kos = np.array(kos.numpy(), dtype=npdt)[0]               # (units, nkp)
   Xu = X if X.shape[1] == units else np.tile(X, (1, units))
   miss = d["missing_in"] is not None
+  derived_miss = miss and d["missing_out"] is None
   kw = dict(dtype="float64" if d["f64"] else "float32")
   if miss:
     kw.update(impute_missing=True, missing_input_value=d["missing_in"], missing_output_value=d["missing_out"])
   fail = None
   terms = []
   lay_all = np.zeros_like(out)
+  # the "corresponding keypoints and weights" computed INDEPENDENTLY of the function from the raw parameters
+  indep = [_pwl_corresponding(d, u) for u in range(units)]
+  eps_dt = float(np.finfo(npdt).eps)
   for u in range(units):
+    iks, ikern, imo = indep[u]
+    if derived_miss:
+      kw["missing_output_value"] = imo
+    e = (_close(deltas[u], np.diff(iks), tol) or _close(kos[u], ikern, tol))
+    if e and fail is None:
+      fail = ("pwl_calibration_fn: the derived parameters it returns differ from the keypoints / weights "
+              "corresponding to its raw parameters (unit %d): %s" % (u, e))
+    # a float64 PWLCalibration layer holding the INDEPENDENTLY computed keypoints and kernel column
+    kwi = dict(dtype="float64")
+    if miss:
+      kwi.update(impute_missing=True, missing_input_value=d["missing_in"], missing_output_value=imo)
+    ilayer = tfl.layers.PWLCalibration(input_keypoints=[float(v) for v in iks], units=1, **kwi)
+    xin64 = tf.constant(np.array(Xu[:, u:u + 1], dtype=np.float64))
+    ilayer(xin64)
+    ilayer.kernel.assign(np.array(ikern, dtype=np.float64)[:, None])
+    yi = np.array(ilayer(xin64).numpy(), dtype=np.float64)[:, 0]
+    # rounding of the keypoints moves the value by at most slope * keypoint error
+    slope = float(np.max(np.abs(ikern[1:]) / np.diff(iks)))
+    atol = tol + 16 * eps_dt * max(1.0, float(np.max(np.abs(iks)))) * slope
+    e = _close(out[:, u], yi, atol)
+    if e and fail is None:
+      fail = ("pwl_calibration_fn and the PWLCalibration layer holding the keypoints / weights corresponding to "
+              "its raw parameters disagree (unit %d): %s" % (u, e))
     ks = (npdt(d["in_min"]) + np.concatenate([[npdt(0)], np.cumsum(deltas[u], dtype=npdt)])).astype(npdt)
     ks_list = [float(v) for v in ks]
     if any(b <= a for a, b in zip(ks_list, ks_list[1:])):
@@ -397,12 +489,13 @@ def eval_pwl(tf, tfl, d):
     e = _close(out[:, u], yl, tol)
     if e and fail is None:
       fail = "pwl_calibration_fn and the PWLCalibration layer with the derived parameters disagree (unit %d): %s" % (u, e)
-    missing = "None" if not miss else "(Some (%s, %s))" % (cq(float(npdt(d["missing_in"]))), cq(float(npdt(d["missing_out"]))))
+    missing = "None" if not miss else "(Some (%s, %s))" % (
+        cq(float(npdt(d["missing_in"]))), cq(float(npdt(imo if derived_miss else d["missing_out"]))))
     terms.append("CPwl %s %s %s %s %s %s %s %s %s" % (
         cbool(d["f64"]), cq(float(npdt(d["in_min"]))), cql(_fl(deltas[u])), cql(_fl(kos[u])), cql(ks_list), missing,
         cql(_fl(Xu[:, u])), cql(_fl(out[:, u])), cql(_fl(yl))))
   multi = False
-  if units > 1 and d["shared_in"] and terms:
+  if units > 1 and d["shared_in"] and terms and not derived_miss:
     # shared keypoints: ONE multi-unit layer with the kernel [nkp, units]
     ks = (npdt(d["in_min"]) + np.concatenate([[npdt(0)], np.cumsum(deltas[0], dtype=npdt)])).astype(npdt)
     layer = tfl.layers.PWLCalibration(input_keypoints=[float(v) for v in ks], units=units, **kw)
@@ -414,10 +507,25 @@ def eval_pwl(tf, tfl, d):
     multi = True
     if e and fail is None:
       fail = "pwl_calibration_fn and the multi-unit PWLCalibration layer with the derived parameters disagree: " + e
+    # ... and ONE float64 multi-unit layer holding the independently computed shared keypoints and kernel
+    kwi = dict(dtype="float64")
+    if miss:
+      kwi.update(impute_missing=True, missing_input_value=d["missing_in"], missing_output_value=d["missing_out"])
+    ilayer = tfl.layers.PWLCalibration(input_keypoints=[float(v) for v in indep[0][0]], units=units, **kwi)
+    xin64 = tf.constant(np.array(X, dtype=np.float64))
+    ilayer(xin64)
+    ilayer.kernel.assign(np.array([k for _, k, _ in indep], dtype=np.float64).T)
+    yi = np.array(ilayer(xin64).numpy(), dtype=np.float64)
+    slope = max(float(np.max(np.abs(k[1:]) / np.diff(ks_))) for ks_, k, _ in indep)
+    atol = tol + 16 * eps_dt * max(1.0, float(np.max(np.abs(indep[0][0])))) * slope
+    e = _close(out, yi, atol)
+    if e and fail is None:
+      fail = ("pwl_calibration_fn and the multi-unit PWLCalibration layer holding the keypoints / weights "
+              "corresponding to its raw parameters disagree: " + e)
   klass = "pwl_%s_%s%s%s%s_u%d_%s%s" % (
       "none" if d["n_in"] is None else "n%d" % d["n_in"], d["mono"][:3], "_cmin" if d["cmin"] else "",
-      "_cmax" if d["cmax"] else "", "_cyc" if d["cyc"] else "", units, "miss" if miss else "nomiss",
-      "_multi" if multi else "")
+      "_cmax" if d["cmax"] else "", "_cyc" if d["cyc"] else "", units,
+      ("missd" if derived_miss else "miss") if miss else "nomiss", "_multi" if multi else "")
   return Case(d, coq=terms or None, pred_fail=fail, nontrivial=True, klass=klass,
               info={"fn": _fl(out), "layers": _fl(lay_all)})
 
@@ -458,10 +566,30 @@ def eval_cdf(tf, tfl, d):
                  scaling_parameters=tf.constant(sp.astype(npdt), dtype=dt), units=units, activation=d["act"],
                  reduction=d["red"], sparsity_factor=sf)
   yf = np.array(yf.numpy(), dtype=np.float64)
-  e = _close(yf, yl, tol)
-  fail = None if e is None else "cdf_fn and the CDF layer holding the same kernel / scaling disagree: " + e
+  if d["red"] == "geometric_mean":
+    # the tolerated exception: BOTH are exp(mean_i log(cdf_i + eps)) of the same per-input cdfs (the 'none' result,
+    # computed here independently in float64 NumPy) and differ ONLY by eps = 1e-8 (cdf_fn) vs 1e-3 (layer)
+    z = (np.array(d["xs"], dtype=np.float64)[:, :, None, None] - np.array(d["kernel"], dtype=np.float64)[None]) * \
+        np.array(per_in, dtype=np.float64).reshape(1, D, 1, 1)
+    M = np.mean(np.clip(z, 0.0, 6.0), axis=2) / 6.0 if d["act"] == "relu6" else np.mean(_np_sigmoid(z), axis=2)
+    if sf != 1:
+      M = M.reshape(-1, D // sf, units)
+    ltol = 1e-8 if d["f64"] else 1e-4  # compared in log space: an eps of the wrong magnitude must show at cdf = 0
+    fail = None
+    for name, y, eps in [("cdf_fn", yf, 1e-8), ("the CDF layer", yl, 1e-3)]:
+      want = np.mean(np.log(M + eps), axis=1)
+      if y.shape != want.shape or not np.all(np.isfinite(y)) or np.any(y <= 0):
+        e = "shape %r / non-finite / non-positive output" % (y.shape,)
+      else:
+        e = _close(np.log(y), want, ltol)
+      if e and fail is None:
+        fail = ("geometric_mean: %s is not exp(mean(log(cdfs + %g))) of the per-input cdfs (log space): %s"
+                % (name, eps, e))
+  else:
+    e = _close(yf, yl, tol)
+    fail = None if e is None else "cdf_fn and the CDF layer holding the same kernel / scaling disagree: " + e
   coq = None
-  if d["act"] == "relu6":
+  if d["act"] == "relu6" and d["red"] != "geometric_mean":
     def mats(y):
       return clist([cqm([_fl(r)] if d["red"] == "mean" else _fl(r)) for r in y])
     coq = "CCdf %s %s %s %s %s %s %s %s %s" % (
